@@ -12,13 +12,17 @@ git apply $OUT/patch.diff || { echo "patch does not apply"; exit 1; }
 cp $OUT/seed_demo.rs tests/seed_demo.rs
 # 1. with the change: existing suite must pass, demo must fail
 cargo test --offline -j 6 --no-fail-fast > $OUT/with_change.log 2>&1
+if [ -n "${FEAT:-}" ]; then   # the demo needs a cargo feature: run it separately with the feature on
+  cargo test --offline -j 6 --features $FEAT --test seed_demo >> $OUT/with_change.log 2>&1
+fi
 WITH_FAIL=$(grep -E "^test result: FAILED|error: test failed" $OUT/with_change.log | wc -l)
 FAILED_TARGETS=$(grep -E "error: test failed, to rerun pass" $OUT/with_change.log | sed 's/.*pass //' | tr '\n' ' ')
 DEMO_FAILS=$(grep -c "to rerun pass \`--test seed_demo\`" $OUT/with_change.log)
+if [ -n "${FEAT:-}" ]; then DEMO_FAILS=$(grep -c "^test result: FAILED" $OUT/with_change.log); fi
 OTHER_FAILS=$(grep -E "error: test failed, to rerun pass" $OUT/with_change.log | grep -vc "seed_demo")
 # 2. without the change: demo must pass
 git checkout -q -- src
-cargo test --offline -j 6 --test seed_demo > $OUT/without_change.log 2>&1
+cargo test --offline -j 6 ${FEAT:+--features $FEAT} --test seed_demo > $OUT/without_change.log 2>&1
 DEMO_PASSES=$(grep -c "^test result: ok" $OUT/without_change.log)
 git apply $OUT/patch.diff
 python3 - <<PY
